@@ -12,7 +12,8 @@ RULE = 'flat graphs with 1-2 thrower nodes faulting at start / k-th evaluate / s
 TRUSTED = ['UnwindCleanupGuard / FirstExceptionRecorder (util/scope.h) modelled as first-error-wins folds'] + list(dyn.TRUSTED)
 ASSUMPTIONS = ['faults are std::runtime_error thrown by harness nodes'] + list(dyn.ASSUMPTIONS)
 TECHNIQUE = 'Lean 4 proof (start/stop as folds with rollback and first-exception recording, for every fault assignment) + differential correspondence with fault injection + lifecycle monitor'
-LEVEL_TEXT = 'Kernel-checked for every graph size and every assignment of start/stop faults: nodes start in order and exactly a prefix starts; stop visits every started node exactly once in reverse order even when stops throw; a failed start stops exactly the started prefix in reverse; the first error is the one reported. The engine model is compared with the runtime under injected faults, and every implementation trace passes the lifecycle monitor.'
+LEVEL_TEXT = ('Kernel-checked for every graph size and every assignment of start/stop faults: nodes start in order and exactly a prefix starts; stop visits every started node exactly once in reverse order even when stops throw; a failed start stops exactly the started prefix in reverse; the first error is the one reported. The engine model is compared with the runtime under injected faults, and every implementation trace passes the lifecycle monitor.'
+              " Dynamic children (Props/C14Dyn.lean, stream dynlife; map_, switch_ and reduce_ as coded after fixes F7/F8): for every key history and every assignment of start / evaluate / stop faults no lifecycle violation occurs, nothing is left started at the return of run() (clean-up on) and at release, every node's hook sequence is start, evaluate*, stop, the first error is the one reported, a failing child start leaves no started sibling behind, and a combiner stop error at the parent's stop reaches the caller (reduce_stop_error_reaches_caller).")
 LEVEL_NOTE = 'Trusted: Lean kernel; model tied by correspondence; nested/dynamic children are exercised by the nested programs of C09/C15.'
 
 
